@@ -56,6 +56,16 @@ def bisect_contract(pred):
     return handler
 
 
+def _nested_name(S):
+    """name of the recursive helper nested in find_state_change (read from the current AST)"""
+    import ast
+    from vlib.pyvc.engine import fn_ast
+    try:
+        return next(n.name for n in fn_ast(S.find_state_change).body if isinstance(n, ast.FunctionDef))
+    except Exception:   # noqa
+        return 'bisect'
+
+
 def h_find_state_change():
     from pytezos.rpc import search as S
 
@@ -65,7 +75,7 @@ def h_find_state_change():
         pred = e.int('pred_value').e
         e.assume(z3.And(start < end, G(start) == pred, G(end) != pred))
         e._bisect_measure = end - start
-        e.closure_contracts['bisect'] = dict(handler=bisect_contract(pred), inline_depth=1)
+        e.closure_contracts[_nested_name(S)] = dict(handler=bisect_contract(pred), inline_depth=1)
         try:
             r = e.call(S.find_state_change, [Sym(end), Sym(start), _Get(), _Eq(), Sym(pred)])
         except RaiseEx as ex:
@@ -99,8 +109,41 @@ def install_fsc_contract(e):
     e.stub(S.find_state_change, fsc)
 
 
+def _names_walk(S):
+    """(level, value) local names of walk_state_change_interval from its current AST (tuple assignment in the loop)"""
+    import ast
+    from vlib.pyvc.engine import fn_ast, loops_of
+    try:
+        lp = loops_of(fn_ast(S.walk_state_change_interval))[0]
+        for n in ast.walk(lp):
+            if isinstance(n, ast.Assign) and isinstance(n.targets[0], ast.Tuple) and len(n.targets[0].elts) == 2:
+                a, b = n.targets[0].elts
+                return a.id, b.id
+    except Exception:   # noqa
+        pass
+    return 'level', 'value'
+
+
+def _names_intervals(S):
+    """(level, value, succ_level, succ_value) local names of find_state_change_intervals from its current AST"""
+    import ast
+    from vlib.pyvc.engine import fn_ast, loops_of
+    try:
+        lp = loops_of(fn_ast(S.find_state_change_intervals))[0]
+        level = lp.target.id
+        value = next(n.targets[0].id for n in lp.body if isinstance(n, ast.Assign) and isinstance(n.value, ast.Call))
+        copies = {}
+        for n in ast.walk(lp):
+            if isinstance(n, ast.Assign) and isinstance(n.value, ast.Name) and isinstance(n.targets[0], ast.Name):
+                copies[n.value.id] = n.targets[0].id
+        return level, value, copies[level], copies[value]
+    except Exception:   # noqa
+        return 'level', 'value', 'succ_level', 'succ_value'
+
+
 def h_walk():
     from pytezos.rpc import search as S
+    n_level, n_value = _names_walk(S)
 
     def h(e: Engine):
         last = e.int('last').e
@@ -110,11 +153,11 @@ def h_walk():
         install_fsc_contract(e)
 
         def inv(env):
-            level, value = Z(env['level']), Z(env['value'])
+            level, value = Z(env[n_level]), Z(env[n_value])
             return z3.And(last <= level, level <= head, value == G(level))
 
         def iter_check(eng, before, after, yields, lid):
-            lv0 = Z(before['level'])
+            lv0 = Z(before[n_level])
             eng.check('walk::iter.one_yield', z3.BoolVal(len(yields) == 1))
             if len(yields) != 1:
                 return
@@ -125,10 +168,10 @@ def h_walk():
             eng.check('walk::iter.no_change_point_skipped', z3.Implies(z3.And(lv0 < m, m < lvl), G(m) == G(m - 1)))
 
         def after(eng, env, lid):
-            level = Z(env['level'])
+            level = Z(env[n_level])
             m = z3.Int('m!x')
             eng.check('walk::exit.no_change_point_left(convexity)', z3.Implies(z3.And(level < m, m <= head), G(m) == G(m - 1)))
-        e.invariants[('walk_state_change_interval', 0)] = dict(inv=inv, variant=lambda env: head - Z(env['level']), iter_check=iter_check, after=after)
+        e.invariants[('walk_state_change_interval', 0)] = dict(inv=inv, variant=lambda env: head - Z(env[n_level]), iter_check=iter_check, after=after)
         try:
             e.call(S.walk_state_change_interval, [Sym(head), Sym(last), _Get(), _Eq()], dict(head_value=Sym(G(head)), last_value=Sym(G(last))))
         except RaiseEx as ex:
@@ -138,6 +181,7 @@ def h_walk():
 
 def h_intervals():
     from pytezos.rpc import search as S
+    n_level, n_value, n_sl, n_sv = _names_intervals(S)
 
     def h(e: Engine):
         last = e.int('last').e
@@ -148,16 +192,16 @@ def h_intervals():
 
         def inv(env):
             # `level` is the next sample of the range part; succ_level is the previous sample
-            level, succ_level, succ_value = Z(env['level']), Z(env['succ_level']), Z(env['succ_value'])
+            level, succ_level, succ_value = Z(env[n_level]), Z(env[n_sl]), Z(env[n_sv])
             return z3.And(level == succ_level - step, succ_level <= head, succ_level > last, succ_value == G(succ_level))
 
         def iter_check(eng, before, after, yields, lid):
-            lvl = Z(after['level'] if 'level' in after else before['level'])
-            lvl = Z(before['level'])
-            sl0, sv0 = Z(before['succ_level']), Z(before['succ_value'])
+            lvl = Z(before[n_level])
+            lvl = Z(before[n_level])
+            sl0, sv0 = Z(before[n_sl]), Z(before[n_sv])
             eng.check(f'intervals::{lid.split(".")[-1]}.sample_in_range_and_decreasing', z3.And(last <= lvl, lvl < sl0))
-            eng.check(f'intervals::{lid.split(".")[-1]}.next_succ_level_is_this_sample', Z(after['succ_level']) == lvl)
-            eng.check(f'intervals::{lid.split(".")[-1]}.succ_value==G(succ_level)', Z(after['succ_value']) == G(lvl))
+            eng.check(f'intervals::{lid.split(".")[-1]}.next_succ_level_is_this_sample', Z(after[n_sl]) == lvl)
+            eng.check(f'intervals::{lid.split(".")[-1]}.succ_value==G(succ_level)', Z(after[n_sv]) == G(lvl))
             differ = G(lvl) != sv0
             eng.check(f'intervals::{lid.split(".")[-1]}.yields_iff_end_values_differ',
                       z3.If(differ, z3.BoolVal(len(yields) == 1), z3.BoolVal(len(yields) == 0)))
@@ -171,8 +215,8 @@ def h_intervals():
                           z3.Implies(z3.And(lvl < m, m <= sl0), G(m) == G(m - 1)))
 
         def after(eng, env, lid):
-            eng.check('intervals::after.samples_reach_last', Z(env['succ_level']) == last)
-        e.invariants[('find_state_change_intervals', 0)] = dict(inv=inv, variant=lambda env: Z(env['level']) - last + step,
+            eng.check('intervals::after.samples_reach_last', Z(env[n_sl]) == last)
+        e.invariants[('find_state_change_intervals', 0)] = dict(inv=inv, variant=lambda env: Z(env[n_level]) - last + step,
                                                                 iter_check=iter_check, after=after)
         try:
             e.call(S.find_state_change_intervals, [Sym(head), Sym(last), _Get(), _Eq()], dict(step=Sym(step)))
